@@ -653,6 +653,17 @@ bool ObjectFile::writeAttributes(File &objectFile)
 		}
 	}
 
+	// The attributes have only been buffered so far; they are stored once
+	// the stream has been flushed (this is where a full disk shows)
+	if (!objectFile.flush())
+	{
+		DEBUG_MSG("Failed to flush object %s", path.c_str());
+
+		objectFile.unlock();
+
+		return false;
+	}
+
 	objectFile.unlock();
 
 	return true;
